@@ -3,7 +3,8 @@
 (* Validates histories recorded from the real InletBase / OutletBase       *)
 (* objects (checks/c16_driver.py).  One JSON object per history:           *)
 (*   id, g = {Lin, X, Lout, copyq, active}  nominal geometry (lattice),    *)
-(*   code = {Lin, Lout}  the zone lengths the implementation holds,        *)
+(*   code = {Lin, Lout, LinM, LoutM}  the zone lengths the implementation  *)
+(*          holds (rounded to the logging unit; in 1/mpf of it),           *)
 (*   naxes  number of non-zero components of the interface normal,         *)
 (*   calls = [{kind, stage, ok, before, after}]  every update call with    *)
 (*           the rows [id, s, t1, t2, a, b] of the inlet, fluid and outlet *)
@@ -33,6 +34,9 @@ Geom(x, lin, lout, slack) ==
      active |-> Range(x.g.active), slack |-> slack]
 Sum(f, n) == LET F[k \in 0..n] == IF k = 0 THEN 0 ELSE F[k - 1] + f[k] IN F[n]
 
+\* does the implementation hold the nominal zone lengths
+ExactLengths(x) == x.code.LinM = x.g.Lin * x.mpf /\ x.code.LoutM = x.g.Lout * x.mpf
+
 Verdict(x) ==
     IF "crash" \in DOMAIN x \/ "error" \in DOMAIN x
     THEN [id |-> x.id, failed |-> {<<0, "Returns">>}, known |-> {},
@@ -47,11 +51,12 @@ Verdict(x) ==
              failed |-> f,
              known |-> IF /\ f # {}
                           /\ x.naxes > 1
-                          /\ (x.code.Lin # x.g.Lin \/ x.code.Lout # x.g.Lout)
+                          /\ ~ExactLengths(x)
                           /\ HFailed(ascode, x.calls) = {}
                        THEN {"C16-diagonal-length"} ELSE {},
              links |-> Links(x.calls),
-             drift |-> {k \in okc : Drift(nominal, x.calls[k])},
+             drift |-> IF ExactLengths(x)
+                       THEN {k \in okc : Drift(nominal, x.calls[k])} ELSE {},
              ncalls |-> n,
              entered |-> Sum([k \in 1..n |-> IF k \in okc THEN Entered(x.calls[k]) ELSE 0], n),
              left |-> Sum([k \in 1..n |-> IF k \in okc THEN Left(x.calls[k]) ELSE 0], n),
